@@ -171,7 +171,15 @@ class Result:
     def add_lv(self, doc, label=None):
         label = label or doc.get("profile", "?")
         self.evaluations += doc["evaluations"]
-        self.distinct += doc["distinct_nontrivial"]
+        # the release run repeats (a sample of) the checked run's cases with the same seed: the
+        # same cases must not be counted as distinct twice. Miri shards partition their workload.
+        if label.startswith("miri"):
+            self.distinct += doc["distinct_nontrivial"]
+        else:
+            prev = getattr(self, "_l1_distinct", 0)
+            if doc["distinct_nontrivial"] > prev:
+                self.distinct += doc["distinct_nontrivial"] - prev
+                self._l1_distinct = doc["distinct_nontrivial"]
         for k, v in doc["classes"].items():
             self.classes[k] = self.classes.get(k, 0) + v
         for s in doc["samples"]:
